@@ -254,19 +254,17 @@ theorem sideTooLong_mono {b k : Bytes} (h : sideTooLong b k true = false) : side
   omega
 
 /-- what must hold for an owner's `complete_multipart_upload` that passes validation to be compared with the store: the
-    bucket exists [fs:complete-into-missing-bucket] and the key's path is free; side-file names fit; an upload without
-    metadata does not meet an old metadata file [fs:stale-metadata-after-complete]; no checksums are recorded for the key
-    [fs:stale-checksum-after-complete] -/
-def CompleteSuccessOk (s : State) (b k : Bytes) (id : Nat) : Prop :=
+    bucket exists [fs:complete-into-missing-bucket] and the key's path is free; side-file names fit. (Since cf67827 the
+    metadata and the checksums of the object it replaces do not matter: they are replaced too; before:
+    fs:stale-metadata-after-complete, fs:stale-checksum-after-complete.) -/
+def CompleteSuccessOk (s : State) (b k : Bytes) (_id : Nat) : Prop :=
   sideTooLong b k true = false ∧
   (match keyPath k with
     | none => False
     | some p =>
       match s.tree b with
       | none => False
-      | some t => WriteOk t p) ∧
-  (alLookup (b, k, id) s.upMetas = none → alLookup (b, k) s.metas = none) ∧
-  (alLookup (b, k) s.infos).getD {} = {}
+      | some t => WriteOk t p)
 
 /-- what must hold for the owner's `complete_multipart_upload` to be compared with the store: the part list is
     `1, 2, …, m` [else fs:complete-requires-consecutive-parts, fs:complete-part-list-validation]; the names are admissible
@@ -308,12 +306,11 @@ theorem complete_core {s s' : State} (hi : Inv s) {b k c : Bytes} {id : Nat} {ui
     (ht : s.tree b = some t) (hp : PathOk p) (hcanon : joinWith [slash] p = k) (hw : t.node p ≠ some Node.dir)
     (hds : ∀ e ∈ ds, e.2 = Node.dir ∧ e.1 ∈ prefixes p.dropLast) (hnd : keysNodup (t ++ ds))
     (her : Erased id s.parts ps)
-    (hmeta : alLookup (b, k, id) s.upMetas = none → alLookup (b, k) s.metas = none)
-    (hcks : (alLookup (b, k) s.infos).getD {} = {})
     (hb' : s'.buckets = alInsert b (alInsert p (.file c) (t ++ ds)) s.buckets)
-    (hmetas : s'.metas = (alLookup (b, k, id) s.upMetas).elim s.metas (fun m => alInsert (b, k) (.good m) s.metas))
+    (hmetas : s'.metas = (alLookup (b, k, id) s.upMetas).elim (alErase (b, k) s.metas)
+      (fun m => alInsert (b, k) (.good m) s.metas))
     (hupm : s'.upMetas = (alLookup (b, k, id) s.upMetas).elim s.upMetas (fun _ => alErase (b, k, id) s.upMetas))
-    (hinfos : s'.infos = s.infos) (hu : s'.uploads = alErase id s.uploads) (hpa : s'.parts = ps)
+    (hinfos : s'.infos = alInsert (b, k) {} s.infos) (hu : s'.uploads = alErase id s.uploads) (hpa : s'.parts = ps)
     (hiss : s'.issued = s.issued) :
     abs s' = { ((abs s).setObj b k ⟨c, (upOf s id ui).md, {}⟩) with uploads := alErase id (abs s).uploads } ∧
     Inv s' := by
@@ -322,14 +319,15 @@ theorem complete_core {s s' : State} (hi : Inv s) {b k c : Bytes} {id : Nat} {ui
     intro x hx
     rw [hmetas]
     cases alLookup (b, k, id) s.upMetas with
-    | none => rfl
+    | none => exact alLookup_alErase_ne hx _
     | some m => exact alLookup_alInsert_ne hx _ _
-  have hin : ∀ x, x ≠ (b, k) → alLookup x s'.infos = alLookup x s.infos := fun x _ => by rw [hinfos]
+  have hin : ∀ x, x ≠ (b, k) → alLookup x s'.infos = alLookup x s.infos := fun x hx => by
+    rw [hinfos]; exact alLookup_alInsert_ne hx _ _
   have hmok : ∀ e ∈ s'.metas, e.2 ≠ MetaFile.corrupt := by
     rw [hmetas]
     intro e he
     cases hum : alLookup (b, k, id) s.upMetas with
-    | none => rw [hum] at he; exact hi.metaOk e he
+    | none => rw [hum] at he; exact hi.metaOk e (alErase_mem he)
     | some m =>
       rw [hum] at he
       rcases alInsert_mem he with he | he
@@ -343,9 +341,9 @@ theorem complete_core {s s' : State} (hi : Inv s) {b k c : Bytes} {id : Nat} {ui
         unfold absMeta upOf
         rw [hmetas, hub, huk]
         cases hum : alLookup (b, k, id) s.upMetas with
-        | none => simp [hmeta hum]
+        | none => simp [alLookup_alErase_self]
         | some m => simp [alLookup_alInsert_self]
-      have eck : (alLookup (b, k) s'.infos).getD {} = ({} : Cks) := by rw [hinfos, hcks]
+      have eck : (alLookup (b, k) s'.infos).getD {} = ({} : Cks) := by rw [hinfos, alLookup_alInsert_self]; rfl
       rw [emd, eck]
     · rw [abs_uploads, hu]
       rw [alErase_map_congr (fun id ui => upOf s' id ui) (fun id ui => upOf s id ui) id s.uploads]
@@ -469,7 +467,8 @@ theorem complete_refines (H : Hashes) (dl : Nat) {s : State} (hi : Inv s) {who :
                   exact ⟨rfl, rfl, hi⟩
                 | true =>
                   rw [hsz] at hts
-                  obtain ⟨hshort, hpath, hmeta, hcks⟩ := hrest hsz
+                  obtain ⟨hshort, hpath⟩ := hrest hsz
+                  have hshort' := sideTooLong_mono hshort
                   rw [hkp] at hpath
                   simp only at hpath
                   cases ht : s.tree b with
@@ -495,26 +494,28 @@ theorem complete_refines (H : Hashes) (dl : Nat) {s : State} (hi : Inv s) {who :
                     | none =>
                       have hstep : step H dl s (.completeMultipartUpload who b k (some id) (some (o :: t))) =
                           ({ s with buckets := alInsert b (alInsert p (.file cs.flatten) (tr ++ ds)) s.buckets,
+                                    metas := alErase (b, k) s.metas, infos := alInsert (b, k) {} s.infos,
                                     parts := eraseParts id ((numbered 0 cs).map (·.1)) s.parts,
                                     uploads := alErase id s.uploads },
                             .completed (some (etagOf H cs.flatten))) := by
-                        simp [step, State.verify, hl, hown, hshort, hum, objPath, hbd, hkp, hm, hts, hcont, hcommit]
+                        simp [step, State.verify, hl, hown, hshort, hshort', hum, objPath, hbd, hkp, hm, hts, hcont, hcommit]
                       rw [hstep, hspec]
-                      obtain ⟨h1, h2⟩ := complete_core (s' := { s with buckets := alInsert b (alInsert p (.file cs.flatten) (tr ++ ds)) s.buckets, parts := eraseParts id ((numbered 0 cs).map (·.1)) s.parts, uploads := alErase id s.uploads })
-                        hi hl hub huk ht hp hcanon hpath.2 hds hnd her hmeta hcks rfl (by rw [hum]; rfl) (by rw [hum]; rfl)
+                      obtain ⟨h1, h2⟩ := complete_core (s' := { s with buckets := alInsert b (alInsert p (.file cs.flatten) (tr ++ ds)) s.buckets, metas := alErase (b, k) s.metas, infos := alInsert (b, k) {} s.infos, parts := eraseParts id ((numbered 0 cs).map (·.1)) s.parts, uploads := alErase id s.uploads })
+                        hi hl hub huk ht hp hcanon hpath.2 hds hnd her rfl (by rw [hum]; rfl) (by rw [hum]; rfl)
                         rfl rfl rfl rfl
                       exact ⟨rfl, h1, h2⟩
                     | some m =>
                       have hstep : step H dl s (.completeMultipartUpload who b k (some id) (some (o :: t))) =
                           ({ s with buckets := alInsert b (alInsert p (.file cs.flatten) (tr ++ ds)) s.buckets,
                                     metas := alInsert (b, k) (.good m) s.metas, upMetas := alErase (b, k, id) s.upMetas,
+                                    infos := alInsert (b, k) {} s.infos,
                                     parts := eraseParts id ((numbered 0 cs).map (·.1)) s.parts,
                                     uploads := alErase id s.uploads },
                             .completed (some (etagOf H cs.flatten))) := by
-                        simp [step, State.verify, hl, hown, hshort, hum, objPath, hbd, hkp, hm, hts, hcont, hcommit]
+                        simp [step, State.verify, hl, hown, hshort, hshort', hum, objPath, hbd, hkp, hm, hts, hcont, hcommit]
                       rw [hstep, hspec]
-                      obtain ⟨h1, h2⟩ := complete_core (s' := { s with buckets := alInsert b (alInsert p (.file cs.flatten) (tr ++ ds)) s.buckets, metas := alInsert (b, k) (.good m) s.metas, upMetas := alErase (b, k, id) s.upMetas, parts := eraseParts id ((numbered 0 cs).map (·.1)) s.parts, uploads := alErase id s.uploads })
-                        hi hl hub huk ht hp hcanon hpath.2 hds hnd her hmeta hcks rfl (by rw [hum]; rfl) (by rw [hum]; rfl)
+                      obtain ⟨h1, h2⟩ := complete_core (s' := { s with buckets := alInsert b (alInsert p (.file cs.flatten) (tr ++ ds)) s.buckets, metas := alInsert (b, k) (.good m) s.metas, upMetas := alErase (b, k, id) s.upMetas, infos := alInsert (b, k) {} s.infos, parts := eraseParts id ((numbered 0 cs).map (·.1)) s.parts, uploads := alErase id s.uploads })
+                        hi hl hub huk ht hp hcanon hpath.2 hds hnd her rfl (by rw [hum]; rfl) (by rw [hum]; rfl)
                         rfl rfl rfl rfl
                       exact ⟨rfl, h1, h2⟩
           · have hown' : (upOf s id ui).owner ≠ who := hown
